@@ -42,7 +42,7 @@ def grid_sum(dmax, dmax_m, quick):
     return out
 
 
-@scenario('C07', 'sum', 'torchtt._tt_base.TT.sum', quick=grid_sum(3, 2, True), thorough=grid_sum(5, 3, False), replay='sum', max_paths=400)
+@scenario('C07', 'sum', 'torchtt._tt_base.TT.sum', quick=grid_sum(3, 2, True), thorough=grid_sum(5, 3, False), dtypes=('float64',), replay='sum', max_paths=400)
 def sum_(ob, d, ttm, index):
     """x.sum(index) equals the dense sum over the listed modes (all modes when index is None); the result keeps
     every mode that is not summed, including original singleton modes"""
